@@ -398,10 +398,8 @@ void h_mm_sparse(void)
   F.next = 0; F.cur = -1;
   /* caller's part */
   ptrdiff_t row_beg, row_end;
-#ifndef MM_STRICT
-  /* the requested range is not inverted (row_end < 0 stands for n) */
-  REQUIRES(row_beg < 0 || (row_end < 0 ? row_beg <= F.hn : row_beg <= row_end));
-#endif
+  /* the requested range is not inverted (row_end < 0 stands for n): an inverted range is a caller error, not a damaged file */
+  REQUIRES(row_beg < 0 || (row_end < 0 ? (F.hn < 0 || row_beg <= F.hn) : row_beg <= row_end));
   mirror_stream(&F); MIRROR_RANGE(row_beg, row_end);
   mm_reader F1 = F, F2 = F;                     /* two readers on the same file */
 
@@ -436,13 +434,10 @@ void h_mm_sparse(void)
   ENSURES(!head_ok || re <= N || t2, "a row range beyond n makes the reader throw");
   ENSURES(!head_ok || F.nlines >= F.hnnz || (t1 && (re > N || t2)), "a file truncated before its last data line makes the reader throw");
   ENSURES(!head_ok || lines_ok || (t1 && (re > N || t2)), "a data line that does not parse (row index, column index or value) makes the reader throw");
-#ifdef MM_STRICT
   ENSURES(!head_ok || !lines_ok || N >= 0 || t1, "a negative row count in the size line makes the reader throw");
-  ENSURES(!head_ok || !lines_ok || N < 0 || rb <= re || t2, "an inverted row range (row_beg > row_end, row_end < 0 standing for n) makes the reader throw");
   ENSURES(!head_ok || !lines_ok || N < 0 || entries_wf(&F) || (t1 && (re > N || t2)),
           "a row or column index outside the matrix makes the reader throw (no structurally invalid matrix is returned)");
-#endif
-  if (head_ok && lines_ok && N >= 0) {
+  if (head_ok && lines_ok && N >= 0 && entries_wf(&F)) {
     ENSURES(!t1, "a well-formed file is read without exception (full read)");
     if (re <= N) ENSURES(!t2, "a well-formed file and a row range inside [0, n] are read without exception");
   }
@@ -520,7 +515,7 @@ def _mk(name, desc, extra_defs, variants, thorough, bound, timeout=300):
         not_decided=['text parsing itself (number syntax, white space, comment lines, locale) and the decimal round trip of values (A-mmstream)',
                      'banner / size-line parsing of the constructor', 'complex overload of read_value (two tokens per value)',
                      'dense (array) reader and the writers', 'Hermitian / skew-symmetric storage (rejected by the constructor)',
-                     'a row or column index outside the matrix and a negative row count in the size line (candidate defects, unit mm_sparse_strict)'],
+                     'an inverted row range (row_beg > row_end): caller error, required not to occur'],
     )
     # per-loop limits (regex on the C line of the loop header); everything else: global --unwind
     u.unwindset = [
@@ -554,15 +549,16 @@ mm_sparse = _mk(
           '[-1, n+2] (inside and outside the matrix, duplicates, any order), any value tokens, any per-line parse failure, every '
           'caller row range that is not inverted (64-bit symbolic)')
 
-# Candidate defects (see the report of the authoring agent): the reader validates neither the row/column indices of a data line
-# nor the sign of the row count.  The strict clauses are kept in a unit of their own that is only listed when
-# VERIF_MM_STRICT=1 (it FAILS on the unchanged tree: structurally invalid matrix returned / vector::back() of an empty vector).
+# Damaged size line: the same contract with a negative row count in the size line allowed (n >= -2).  This unit and the clause
+# "a row or column index outside the matrix makes the reader throw" exposed defect F14 of the unchanged reader (DESIGN.md section 9:
+# neither the indices of a data line nor the sign of the sizes were validated: structurally invalid matrix returned,
+# vector::back() of an empty vector); repaired in /repo, both units pass on the repaired tree.
 mm_strict = _mk(
     'mm_sparse_strict',
-    'MatrixMarket coordinate reader, damaged files: an index outside the matrix or a negative row count makes the reader throw',
+    'MatrixMarket coordinate reader, damaged size line: the contract of mm_sparse_read with a negative row count allowed: a negative size or an index outside the matrix makes the reader throw',
     '#define N_LO (-2)\n#define MM_STRICT 1\n',
     variants=[{'NMAX': 2, 'ZMAX': 2, 'SYM': 1}, {'NMAX': 2, 'ZMAX': 2, 'SYM': 0}],
     thorough=None,
     bound='entry streams with -2 <= n <= 2, m <= 2, nnz <= 2, index tokens in [-1, 4]')
 
-UNITS = [mm_sparse] + ([mm_strict] if os.environ.get('VERIF_MM_STRICT') else [])
+UNITS = [mm_sparse, mm_strict]
